@@ -7,19 +7,43 @@ import SpowtdModel.Lemmas.LoadA
 namespace Spowtd
 variable {α : Type} [Num α]
 
-theorem load_refuses_populated (f : Files α) : load f true = .error .populated := by
-  sorry
+theorem load_refuses_populated (f : Files α) : load f true = .error .populated := rfl
 
 /-- Rainfall timestamps inside the water-level span that are not evenly spaced (or fewer than two
     of them) are refused, never regridded. -/
 theorem load_refuses_nonuniform (f : Files α)
     (hd : hasDup (f.rain.map (·.1)) = false ∧ hasDup (f.et.map (·.1)) = false ∧ hasDup (f.level.map (·.1)) = false)
     (hn : stepOf (gridCore f.rain f.level) = none) : load f false = .error .nonuniform := by
-  sorry
+  have hd' : dupCheck f = false := by simp [dupCheck, hd.1, hd.2.1, hd.2.2]
+  rw [load_unfold, hd', hn]
+  rfl
 
 theorem stepOf_none_iff (core : List Int) :
     stepOf core = none ↔ core.length < 2 ∨ ∃ d d', d ∈ diffs core ∧ d' ∈ diffs core ∧ d ≠ d' := by
-  sorry
+  unfold stepOf
+  cases hdf : diffs core with
+  | nil => simp [(diffs_eq_nil_iff core).mp hdf]
+  | cons d ds =>
+    have hlen : ¬ core.length < 2 := fun h => by
+      rw [(diffs_eq_nil_iff core).mpr h] at hdf; cases hdf
+    simp only [hlen, false_or]
+    by_cases hall : ds.all (fun x => x == d) = true
+    · simp only [hall, ↓reduceIte, reduceCtorEq, false_iff]
+      rintro ⟨a, b, ha, hb, hab⟩
+      simp only [List.all_eq_true, beq_iff_eq] at hall
+      have h1 : a = d := by
+        rcases List.mem_cons.mp ha with h | h
+        · exact h
+        · exact hall a h
+      have h2 : b = d := by
+        rcases List.mem_cons.mp hb with h | h
+        · exact h
+        · exact hall b h
+      exact hab (h1.trans h2.symm)
+    · simp only [hall, Bool.false_eq_true, ↓reduceIte, true_iff]
+      obtain ⟨x, hx, hxd⟩ := List.all_eq_false.mp (Bool.not_eq_true _ ▸ hall)
+      simp only [beq_iff_eq] at hxd
+      exact ⟨x, d, List.mem_cons_of_mem _ hx, List.mem_cons_self, hxd⟩
 
 /-- A grid instant (the closing one included) without an evapotranspiration row is refused. -/
 theorem load_refuses_missing_et (f : Files α) (dt : Int)
@@ -27,32 +51,107 @@ theorem load_refuses_missing_et (f : Files α) (dt : Int)
     (hs : stepOf (gridCore f.rain f.level) = some dt) (g : Int)
     (hg : g ∈ gridCore f.rain f.level ++ [(gridCore f.rain f.level).getLastD 0 + dt])
     (hm : ∀ v, (g, v) ∉ f.et) : load f false = .error .noET := by
-  sorry
+  have hd' : dupCheck f = false := by simp [dupCheck, hd.1, hd.2.1, hd.2.2]
+  have he : etCheck f dt = false := by
+    cases h : etCheck f dt with
+    | false => rfl
+    | true =>
+      obtain ⟨v, hv⟩ := (etCheck_iff f dt).mp h g hg
+      exact absurd hv (hm v)
+  rw [load_unfold, hd', hs]
+  simp only [he]
+  rfl
 
 /-- Conversely an accepted load had none of the refusal conditions: nothing is silently merged. -/
 theorem load_ok_conditions (f : Files α) (pop : Bool) (d : Loaded α) (h : load f pop = .ok d) :
     pop = false ∧ hasDup (f.rain.map (·.1)) = false ∧ hasDup (f.et.map (·.1)) = false ∧
     hasDup (f.level.map (·.1)) = false ∧ stepOf (gridCore f.rain f.level) = some d.step ∧
     ∀ g ∈ d.grid.map (·.1), ∃ v, (g, v) ∈ f.et := by
-  sorry
+  obtain ⟨h1, h2, h3, h4, h5⟩ := load_ok_inv h
+  simp only [dupCheck, Bool.or_eq_false_iff] at h2
+  refine ⟨h1, h2.1.1, h2.1.2, h2.2, h3, ?_⟩
+  intro g hg
+  rw [load_ok_grid_fst h] at hg
+  exact (etCheck_iff f d.step).mp h4 g hg
 
 /-- Every instant returned for a wall-clock reading renders back to that reading … -/
 theorem localize_sound (z : Zone) (l u : Int) (h : u ∈ localize z l) : toLocal z u = l := by
-  sorry
+  obtain ⟨o, _, h1, rfl⟩ := (mem_localize_iff z l u).mp h
+  unfold toLocal
+  rw [h1]
+  omega
 
 /-- … and every instant that renders to it is returned. -/
 theorem localize_complete (z : Zone) (l u : Int) (h : toLocal z u = l) : u ∈ localize z l := by
-  sorry
+  unfold toLocal at h
+  refine (mem_localize_iff z l u).mpr ⟨offsetAt z u, offsetAt_mem_offsetsOf z u, ?_, by omega⟩
+  have : l - offsetAt z u = u := by omega
+  rw [this]
 
 /-- In a fixed-offset zone the instant is unique. -/
 theorem fixed_offset_unique (o l : Int) : localize { initial := o, transitions := [] } l = [l - o] := by
-  sorry
+  simp [localize, offsetsOf, offsetAt]
 
 /-- Declaring the same wall-clock data in another fixed-offset zone shifts every instant by the
     difference of the offsets. -/
 theorem zone_change_is_shift (o o' l : Int) :
     localize { initial := o', transitions := [] } l =
       (localize { initial := o, transitions := [] } l).map (· + (o - o')) := by
-  sorry
+  rw [fixed_offset_unique, fixed_offset_unique]
+  simp only [List.map_cons, List.map_nil, List.cons.injEq, and_true]
+  omega
+
+/-! ### non-vacuity: concrete inputs hitting each refusal, and an accepted one -/
+
+private def exRows (l : List Int) : List (Int × Rat) := l.map (fun e => (e, 1))
+
+/-- accepted: rainfall every 600 s, levels with a gap from 600 to 2400 -/
+private def exOk : Files Rat :=
+  { rain := exRows [0, 600, 1200, 1800, 2400, 3000]
+    et := exRows [0, 600, 1200, 1800, 2400, 3000, 3600]
+    level := exRows [0, 600, 2400, 3000] }
+/-- a rainfall timestamp given twice -/
+private def exDup : Files Rat := { exOk with rain := exRows [0, 600, 600, 1200] }
+/-- rainfall at 0, 600, 1800: not evenly spaced -/
+private def exUneven : Files Rat := { exOk with rain := exRows [0, 600, 1800] }
+/-- a single rainfall timestamp inside the level span -/
+private def exShort : Files Rat := { exOk with rain := exRows [600, 7200] }
+/-- no evapotranspiration row for the closing instant 3600 -/
+private def exNoET : Files Rat := { exOk with et := exRows [0, 600, 1200, 1800, 2400, 3000] }
+
+/-- hypothesis of `load_ok_conditions` -/
+example : ∃ d, load exOk false = .ok d :=
+  (exists_ok_of_okAnd (P := fun d => d.step == 600 && d.grid.length == 7) (by decide)).imp
+    fun _ h => h.1
+
+example : load exOk true = .error .populated := load_refuses_populated exOk
+
+example : load exDup false = .error .duplicate :=
+  eq_error_of_refusedWith (by decide)
+
+/-- hypotheses of `load_refuses_nonuniform`: uneven spacing … -/
+example : load exUneven false = .error .nonuniform :=
+  load_refuses_nonuniform exUneven (by decide) (by decide)
+example : diffs (gridCore exUneven.rain exUneven.level) = [600, 1200] := by decide
+
+/-- … or fewer than two instants -/
+example : load exShort false = .error .nonuniform :=
+  load_refuses_nonuniform exShort (by decide) (by decide)
+example : gridCore exShort.rain exShort.level = [600] := by decide
+
+/-- hypotheses of `load_refuses_missing_et` -/
+example : load exNoET false = .error .noET :=
+  load_refuses_missing_et exNoET 600 (by decide) (by decide) 3600 (by decide)
+    (by intro v hv; revert hv; simp [exNoET, exOk, exRows])
+
+/-- zone arithmetic on a zone with one transition (+7 h → +8 h at instant 1000000):
+    a skipped hour has no instant, an ordinary reading exactly one -/
+private def exZone : Zone := { initial := 25200, transitions := [(1000000, 28800)] }
+example : localize exZone (1000000 + 25200 + 60) = [] := by decide
+example : localize exZone (1000000 + 28800 + 60) = [1000060] := by decide
+example : toLocal exZone 1000060 = 1000000 + 28800 + 60 := by decide
+/-- a repeated hour (+8 h → +7 h) has two instants -/
+example : localize { initial := 28800, transitions := [(1000000, 25200)] } (1000000 + 25200 + 60)
+    = [996460, 1000060] := by decide
 
 end Spowtd
